@@ -74,6 +74,15 @@ def arg_tuple(ctx, name, arity):
     return xs
 
 
+def subject_args(ctx, rec, nm):
+    """(arguments to pass to the subject, flat list of the symbolic integers that identify the tuple incl. the receiver)"""
+    xs = arg_tuple(ctx, nm, len(rec['args']))
+    if rec['recv']:
+        rid = z3.Int(nm + '_recv'); ctx.add(z3.And(rid >= 0, rid < 1000))
+        return [Ref(Cell(Agg('Svc', 0, [rid]), 'self'))] + xs, [rid] + xs
+    return xs, xs
+
+
 def tuple_eq(a, b): return b_and(*[simp(x == y) for x, y in zip(a, b)]) if a else True
 
 
@@ -144,6 +153,12 @@ def run(P, item):
             r = wrap.call_subject(I, ctx, subj, cargs, 0); stored_vals.append(r)
         forced['on'] = False; E.strcap_max = 2 ** 36
         pre_log = list(log); del log[:]
+        # thread 0's storage before the call under test (for the isolation claims of thread-scoped subjects)
+        t0_pre = None
+        g_pre = [c for c in pre_log if c['method'] == 'get']
+        if g_pre:
+            st0, q0, _c = cache_parts(P, g_pre[-1]['cache'], g_pre[-1]['ty'], 0)
+            if st0 is not None: t0_pre = ([k for k, v in st0.items], [v for k, v in st0.items], list(q0.items), st0, q0)
         nev = len(ctx.events)
         # ---- the call under test
         tid = 1 if pattern == 'other-thread' else 0
@@ -160,7 +175,7 @@ def run(P, item):
         if item.get('second'):
             nev2 = len(ctx.events); l1 = list(log); del log[:]
             r2 = wrap.call_subject(I, ctx, subj, cargs, tid); ev2 = ctx.events[nev2:]; log2 = list(log); log[:] = l1
-        return dict(I=I, setup=setup, stored_vals=stored_vals, flat=flat, r=r, ev=ev, log=list(log), pre_log=pre_log, tid=tid, r2=r2, ev2=ev2, log2=log2, keys_after=keys_after)
+        return dict(I=I, setup=setup, stored_vals=stored_vals, flat=flat, r=r, ev=ev, log=list(log), pre_log=pre_log, tid=tid, r2=r2, ev2=ev2, log2=log2, keys_after=keys_after, t0_pre=t0_pre)
 
     outs, st = explore(run_path, seed=item.get('seed', 0), timeout_ms=20000 if item.get('tier') != 'thorough' else 120000)
     for o in outs:
@@ -233,6 +248,11 @@ def oracle_call(P, ctx, subj, d, claims, classes, n, pattern):
             add('C02', 'every argument and the receiver take part in the key: arguments never stored are not found', not hit, cond)
         if case is not None and hit:
             add('C01', 'a hit serves the value stored for the same arguments', simp(term_eq(g.fields[0], d['stored_vals'][case])), cond)
+    if fl == 'T' and tid != 0 and d.get('t0_pre') is not None:
+        ks0, vs0, qs0, st0, q0 = d['t0_pre']
+        ks1 = [k for k, v in st0.items]; qs1 = list(q0.items)
+        add('C14', 'a call on another thread neither evicts nor adds entries of this thread (per-thread limit and storage)',
+            len(ks0) == len(ks1) and len(qs0) == len(qs1) and simp(b_and(*[str_eq(a, b) for a, b in zip(ks0, ks1)])) is True and simp(b_and(*[str_eq(a, b) for a, b in zip(qs0, qs1)])) is True)
     # ---- the composition after the lookup
     served_from_cache = False
     if hit:
